@@ -127,30 +127,35 @@ func callArgs(ci ssa.CallInstruction) []ssa.Value {
 	return cc.Args
 }
 
-// Reaches reports whether from can (transitively) call to, within repo code.
+// Reaches reports whether from can (transitively) call to, within repo code,
+// over the refined call relation (see siteCallees).
 func (p *Prog) Reaches(from, to *ssa.Function) bool {
+	p.Effects(from) // make sure paramCalls is built
 	seen := map[*ssa.Function]bool{}
 	var dfs func(f *ssa.Function) bool
 	dfs = func(f *ssa.Function) bool {
 		if f == to {
 			return true
 		}
-		if seen[f] {
+		if seen[f] || f.Blocks == nil {
 			return false
 		}
 		seen[f] = true
-		node := p.CG.Nodes[f]
-		if node == nil {
-			return false
-		}
-		for _, e := range node.Out {
-			c := e.Callee.Func
-			pk := fnPkg(c)
-			if pk == nil || !strings.HasPrefix(pk.Path(), modPath) {
-				continue
-			}
-			if dfs(c) {
-				return true
+		for _, b := range f.Blocks {
+			for _, in := range b.Instrs {
+				call, ok := in.(ssa.CallInstruction)
+				if !ok {
+					continue
+				}
+				for _, sc := range p.siteCallees(call) {
+					pk := fnPkg(sc.fn)
+					if pk == nil || !strings.HasPrefix(pk.Path(), modPath) {
+						continue
+					}
+					if dfs(sc.fn) {
+						return true
+					}
+				}
 			}
 		}
 		return false
@@ -160,8 +165,9 @@ func (p *Prog) Reaches(from, to *ssa.Function) bool {
 
 // CallReaches: may this call instruction (transitively) invoke target?
 func (p *Prog) CallReaches(ci ssa.CallInstruction, target *ssa.Function) bool {
-	for _, c := range p.Callees(ci) {
-		if c == target || p.Reaches(c, target) {
+	p.Effects(ci.Parent())
+	for _, sc := range p.siteCallees(ci) {
+		if sc.fn == target || p.Reaches(sc.fn, target) {
 			return true
 		}
 	}
